@@ -14,6 +14,12 @@ DBal(s, t, a, d)   == Bal(t, a, d) -- Bal(s, a, d)
 DSupply(s, t, d)   == Supply(t, d) -- Supply(s, d)
 \* accounts driven by private keys (users, bots, feeders); every other account is protocol-owned
 UserAccts(s) == {s.users[i] : i \in DOMAIN s.users}
+\* At the start of its provider epoch estaking claims (and re-vests) the Eden of the provider reward account in the begin blocker:
+\* the uelys that vesting releases is minted to that module account.  The amount, for supply bookkeeping of that step:
+ProviderAcct == "mod:cons_to_send_to_provider"
+ProviderRelease(k, s, t, d) ==
+  IF k = "Begin" /\ d = "uelys" /\ Vesting(s, ProviderAcct) # Vesting(t, ProviderAcct) /\ DBal(s, t, ProviderAcct, d) \succ Zero
+  THEN DBal(s, t, ProviderAcct, d) ELSE Zero
 \* a governance-authority message applied between blocks through the real MsgServiceRouter
 AdminOK(k, e, name) == k = "Admin" /\ e.name = name /\ e.ok
 =============================================================================
